@@ -211,7 +211,7 @@ def ev_sig(name, key, ann, value_src, ovr):
     elif key[0] == "attr":
         k = PE.dump(ast.Call(func=ast.Name(id="__ptera_Key", ctx=ast.Load()), args=[ast.Constant("attr"), ast.Constant(key[1])], keywords=[]))
     else:
-        k = PE.dump(ast.Call(func=ast.Name(id="__ptera_Key", ctx=ast.Load()), args=[ast.Constant("index"), parse_expr(key[1])], keywords=[]))
+        k = PE.dump(ast.Call(func=ast.Name(id="__ptera_Key", ctx=ast.Load()), args=[ast.Constant("index"), parse_expr(f"_[{key[1]}]").slice], keywords=[]))
     a = None if ann is None else PE.dump(parse_expr(ann))
     return (name, k, a, PE.dump(parse_expr(value_src)), ovr)
 
@@ -340,6 +340,10 @@ ASSIGN_SCHEMAS = [
     ("subscript-const-index", "o[0] = __E1", [("o", ("index", "0"), None, "__VE1", True)]),
     ("subscript-index-expression", "o[__E2()] = __E1", [("o", ("index", "_ptera__1"), None, "_ptera__0", True)]),
     ("subscript-name-index", "o[k] = __E1", [("o", ("index", "k"), None, "__VE1", True)]),
+    # a slice is an index like any other: its bounds are evaluated once, after the value (`x[lo():] = val()`, `x[(a := 1):2] = v`)
+    ("subscript-slice-with-effects", "o[__E2():] = __E1", [("o", ("index", "_ptera__1"), None, "_ptera__0", True)]),
+    ("subscript-slice-with-walrus", "o[(a := __E2):2] = __E1", [("a", None, None, "__VE2", True), ("o", ("index", "_ptera__1"), None, "_ptera__0", True)]),
+    ("subscript-simple-slice", "o[1:k] = __E1", [("o", ("index", "1:k"), None, "__VE1", True)]),
     # an index that is neither a constant nor a plain name may have effects even without a call in it (a walrus, a property read,
     # an operator method): it is evaluated once, after the value
     ("subscript-index-binop", "o[__E2 + 1] = __E1", [("o", ("index", "_ptera__1"), None, "_ptera__0", True)]),
